@@ -284,7 +284,7 @@ func runScriptOpts(rt *rapid.T, s c03script, segsFor func(i int, n int) []int, g
 			b := it.Encode(N, map[bool]byte{true: s.comp.Method, false: 0}[s.comp.Method != 0 && (it.Kind == "data" || it.Kind == "totals")])
 			st.Segs = segsFor(i, len(b))
 		}
-		if gapAfter != nil && i > 0 {
+		if gapAfter != nil { // also before the first packet of the response
 			st.Delay = gapAfter(i)
 		}
 		if pm, ok := s.pauseIn[i]; ok && len(it.Encode(N, 0)) >= 2 {
